@@ -206,7 +206,7 @@ def all_jobs(info):
     for l, c in asr: b += A(l, c)
     mk('readWriteQueue2UncompressedFile', ['File_readWriteQueue2UncompressedFile'], b, len(asr) + 1, ['File::readWriteQueue2UncompressedFile'], role='U')
     # ------------------------------------------------------------------ compressedFile2UncompressedFile
-    b = '''    uint64_t cur0 = f.currentUncompressedFileSize; int64_t p0 = U.m_tellp;
+    b = '''    uint64_t cur0 = f.currentUncompressedFileSize; int64_t p0 = U.m_tellp; int64_t cg0 = C.cg;
     __CPROVER_assume(cur0 <= ((uint64_t)1 << 60));
     File_compressedFile2UncompressedFile(&f);
 '''
@@ -216,6 +216,7 @@ def all_jobs(info):
         ('C08/File/compressedFile2UncompressedFile/a-container-is-appended-only-if-it-was-read-completely', 'g_writeLC_calls == 0 || C.cstate == 0'),
         ('C05/File/compressedFile2UncompressedFile/size-counter-grows-by-container-header-plus-payload-of-the-appended-container', 'g_writeLC_calls == 0 || g_lc_usize > 0xffffffdfu || f.currentUncompressedFileSize == cur0 + 32 + (uint64_t)g_lc_usize'),
         ('C08/File/compressedFile2UncompressedFile/the-stream-grows-by-exactly-the-declared-payload', 'g_writeLC_calls == 0 || U.m_tellp == p0 + (int64_t)g_lc_usize'),
+        ('C10/File/compressedFile2UncompressedFile/every-transfer-consumes-at-least-one-base-header-of-the-file-or-raises-(a-finite-file-ends-the-worker)', 'vb_exc != 0 || C.cg >= cg0 + 16'),
     ]
     for l, c in asr: b += A(l, c)
     mk('compressedFile2UncompressedFile', ['File_compressedFile2UncompressedFile'], b, len(asr) + 1, ['File::compressedFile2UncompressedFile'], role='C',
